@@ -113,27 +113,27 @@ def run(ctx):
     mrep = T("field", m, "repeat")
     seen = {}
     for p, rep, probs in repeat_of_paths(ctx, anm, summaries):
-        arm = None
-        for a, v in p.guards():
-            if a == T("variantof", mrep):
-                arm = v
-        if arm is None:
+        tested = any(a == T("variantof", mrep) for a, v in p.guards())
+        # the repeat modes this path can belong to (a `match` arm, `matches!`, `if let`, or several tests in a row)
+        poss = kt.variant_set(list(p.guards()), mrep, ("Normal", "Disabled", "Special"))
+        if not tested or not poss:
             ck.ob("C09-R2", anm.path, "return-path-matches-on-the-mapping's-repeat", False)
             continue
-        seen.setdefault(arm, set()).add(variant(rep))
-        if arm in ("Normal", "Disabled"):
-            ck.ob("C09-R2", anm.path, "%s-mapping->Disabled" % arm, variant(rep) == "Disabled", detail=show(rep)[:80])
-        elif arm == "Special":
-            ok = variant(rep) == "Repeating"
-            ck.ob("C09-R2", anm.path, "Special-mapping->Repeating", ok, detail=show(rep)[:80])
-            if ok:
-                f = dict(zip(rep[4], rep[3]))
-                src = T("variant", mrep, "Special")
-                ck.ob("C09-R1", anm.path, "Repeating.keys<-the-fired-mapping's-repeat-keys", mir.strip(f.get("keys")) == T("field", src, "keys"), detail=show(f.get("keys"))[:80])
-                ck.ob("C09-R1", anm.path, "Repeating.delay_ms<-delay_ms", f.get("delay_ms") == T("field", src, "delay_ms"), detail=show(f.get("delay_ms"))[:80])
-                ck.ob("C09-R1", anm.path, "Repeating.interval_ms<-interval_ms", f.get("interval_ms") == T("field", src, "interval_ms"), detail=show(f.get("interval_ms"))[:80])
-        else:
-            ck.ob("C09-R2", anm.path, "unknown-repeat-arm:%s" % (arm,), False)
+        for arm in sorted(poss):
+            seen.setdefault(arm, set()).add(variant(rep))
+            if arm in ("Normal", "Disabled"):
+                ck.ob("C09-R2", anm.path, "%s-mapping->Disabled" % arm, variant(rep) == "Disabled", detail=show(rep)[:80])
+            elif arm == "Special":
+                ok = variant(rep) == "Repeating"
+                ck.ob("C09-R2", anm.path, "Special-mapping->Repeating", ok, detail=show(rep)[:80])
+                if ok:
+                    f = dict(zip(rep[4], rep[3]))
+                    src = T("variant", mrep, "Special")
+                    ck.ob("C09-R1", anm.path, "Repeating.keys<-the-fired-mapping's-repeat-keys", mir.strip(f.get("keys")) == T("field", src, "keys"), detail=show(f.get("keys"))[:80])
+                    ck.ob("C09-R1", anm.path, "Repeating.delay_ms<-delay_ms", f.get("delay_ms") == T("field", src, "delay_ms"), detail=show(f.get("delay_ms"))[:80])
+                    ck.ob("C09-R1", anm.path, "Repeating.interval_ms<-interval_ms", f.get("interval_ms") == T("field", src, "interval_ms"), detail=show(f.get("interval_ms"))[:80])
+            else:
+                ck.ob("C09-R2", anm.path, "unknown-repeat-arm:%s" % (arm,), False)
     ck.ob("C09-R2", anm.path, "all-three-arms-present", set(seen) == {"Normal", "Disabled", "Special"}, detail=str({k: sorted(map(str, v)) for k, v in seen.items()}))
 
     # ---- newly_release: always Disabled ; newly_press: add_new_mapping's request or Disabled
